@@ -62,11 +62,16 @@ func loadOnce(data []byte, sizes []int, name string) (p *bcl.Prog, out, log *byt
 	return
 }
 
+type closerReader struct{ *chunkReader }
+
+func (closerReader) Close() error { return nil }
+
 // loadOnceOpts: LoadProg with every introspection option switched on (their output is discarded).
 func loadOnceOpts(data []byte, sizes []int, name string) (class, label string) {
 	var err error
 	class, _ = guard(20*time.Second, func() {
-		_, err = bcl.LoadProg(&chunkReader{data: append([]byte(nil), data...), sizes: sizes}, name,
+		// the reader is also an io.Closer whose Close succeeds (a file): that must not change the verdict
+		_, err = bcl.LoadProg(closerReader{&chunkReader{data: append([]byte(nil), data...), sizes: sizes}}, name,
 			bcl.OptOutput(discard{}), bcl.OptLogger(discard{}), bcl.OptDisasm(true), bcl.OptStats(true), bcl.OptTrace(true))
 	})
 	if class == "ok" && err != nil {
